@@ -286,6 +286,66 @@ theorem holds (evs : List Ev) : spec evs ((run init evs).map (·.queued)) = true
   simp only [spec, List.length_map, run_length, beq_self_eq_true, Bool.true_and]
   exact judge_run ⟨[], []⟩ init rfl rfl evs
 
+/-! ### failed `request()` calls in the history -/
+
+theorem run2_length (s : St) (a : List Ev2) : (run2 s a).length = a.length := by
+  induction a generalizing s with
+  | nil => rfl
+  | cons e a ih => simp [run2, ih]
+
+/-- **a failed request() is inert**: it queues its own attempts and leaves the recorded versions
+and the unsupported kinds exactly as they were — so the final state of a history is that of the
+history without the `request()` calls, and every theorem above about announcements applies to the
+state an announcement finds, whatever requests failed before it -/
+theorem request_inert (s : St) (k n : Nat) :
+    (step2 s (.request k n)).st = s ∧ (step2 s (.request k n)).queued = List.replicate n k := ⟨rfl, rfl⟩
+
+theorem final2_strip (s : St) (evs : List Ev2) : final2 s evs = final s (strip evs) := by
+  induction evs generalizing s with
+  | nil => rfl
+  | cons e evs ih =>
+    cases e with
+    | ev e => simp only [final2, strip, final, step2]; exact ih _
+    | request k n => simp only [final2, strip, step2]; exact ih _
+
+theorem judge2_run (j : Judge) (s : St) (hs : j.seen = s.versions) (hu : j.unsupported = s.unsupported)
+    (evs : List Ev2) : judge2 j (evs.zip ((run2 s evs).map (·.queued))) = true := by
+  induction evs generalizing j s with
+  | nil => rfl
+  | cons e evs ih =>
+    cases e with
+    | request k n =>
+      simp only [run2, step2, List.map_cons, List.zip_cons_cons, judge2, beq_self_eq_true, Bool.true_and]
+      exact ih _ _ hs hu
+    | ev e =>
+      cases e with
+      | errors ks =>
+        simp only [run2, step2, step, List.map_cons, List.zip_cons_cons, judge2, List.isEmpty_nil, Bool.true_and]
+        exact ih _ _ hs rfl
+      | announce w =>
+        simp only [run2, step2, step, List.map_cons, List.zip_cons_cons, judge2]
+        obtain ⟨h1, h2, h3⟩ := expected_process j s hs hu (dictOf w)
+        rcases hexp : expected j (dictOf w) with ⟨q, j', ok⟩
+        rw [hexp] at h1 h2 h3
+        simp only at h1 h2 h3
+        cases ok with
+        | true =>
+          simp only [announce, ← h1, beq_self_eq_true, Bool.true_and]
+          exact ih j' _ (h3 rfl).1 (h3 rfl).2
+        | false =>
+          simp only [announce, ← h1]
+          exact List.isPrefixOf_iff_prefix.2 (List.prefix_refl _)
+
+/-- every history with failed `request()` calls passes the judge applied to the implementation -/
+theorem holds2 (evs : List Ev2) : spec2 evs ((run2 init evs).map (·.queued)) = true := by
+  simp only [spec2, List.length_map, run2_length, beq_self_eq_true, Bool.true_and]
+  exact judge2_run ⟨[], []⟩ init rfl rfl evs
+
+/-- a request() that failed after set-up does not make its kind unsupported: the next changed
+version is refreshed -/
+example : (run2 init [.ev (.errors []), .ev (.announce [(54, 1)]), .request 54 2, .ev (.announce [(54, 2)])]).map (·.queued)
+    = [[], [54], [54, 54], [54]] := by decide
+
 /-! ### non-vacuity -/
 
 example : (run init [.errors [61], .announce [(49, 1), (50, 1), (61, 5), (200, 1)], .announce [(49, 1), (50, 2)],
